@@ -261,12 +261,37 @@ def make_args(case):
     )
 
 
+def small_sketch_probe():
+    """The small-sketch device sets p/m/width/warmup_size on a fresh instance.  A rewrite of the sketch that derives further
+    state from them in __init__ makes such an instance inconsistent although the real (default-size) sketch is fine; the probe
+    tells the two apart: None = device usable, else the error it met."""
+    try:
+        h = cr.HyperLogLog(cr.HYPERLL_ERROR_BOUND)
+        h.warmup_size = 2
+        h.p = 4
+        h.m = 1 << h.p
+        h.width = 64 - h.p
+        for i in range(40):
+            h.add("%032x" % (i * 2654435761))
+            if i < 2 and len(h) != i + 1:
+                return "len %d after %d distinct values while warm" % (len(h), i + 1)
+        n = len(h)
+        if not 0 <= n <= 16 * 40:
+            return "len %d out of range for 16 registers" % n
+        return None
+    except Exception as e:
+        return "%s: %s" % (type(e).__name__, e)
+
+
+SMALL_SKETCH_ERROR = small_sketch_probe()
+
+
 def run_history(case, sizes):
     cols = case["cols"]
     rows = case["rows"]
     args = make_args(case)
     reset_globals()
-    if case.get("smallcap") is not None:
+    if case.get("smallcap") is not None and SMALL_SKETCH_ERROR is None:
         # pre-created sketches with a small warm-up capacity: C13's claim (exact while warm) is unchanged
         for c in cols:
             h = cr.HyperLogLog(cr.HYPERLL_ERROR_BOUND)
@@ -449,7 +474,7 @@ if True:
             hashes = [[v, int(d, 16)] for v, d in zip(vals, digests)]
             # the sketch's own hash of a digest: xxh32(seed = p) of its utf-8 bytes (HyperLogLogWCache._hasher_update)
             import xxhash as _xx
-            sp = int(case.get("sketch_p") or 19)
+            sp = int((case.get("sketch_p") if SMALL_SKETCH_ERROR is None else None) or 19)
             h2 = [[int(d, 16), _xx.xxh32(d.encode("utf-8"), seed=sp).intdigest()] for d in digests]
             herr = None
         except Exception as e:
@@ -474,5 +499,5 @@ for sc in payload.get("scale", []):
         scale_results.append({"ok": False, "error": "%s: %s" % (type(e).__name__, e)})
 reset_globals()
 shutil.rmtree(OUT, ignore_errors=True)
-print("@@RESULT " + json.dumps({"extract_error": EXTRACT_ERROR, "results": results, "scale": scale_results,
+print("@@RESULT " + json.dumps({"small_sketch_error": SMALL_SKETCH_ERROR, "extract_error": EXTRACT_ERROR, "results": results, "scale": scale_results,
                                 "constants": source_constants()}))
